@@ -48,6 +48,8 @@ struct Gen<'a> {
     rng: &'a mut Rng,
     budget: usize,
     xhtml_share: bool,
+    /// the foreign namespace of this tree: plain, or one whose URI needs escaping inside an attribute value
+    foreign_ns: &'static str,
 }
 
 impl<'a> Gen<'a> {
@@ -110,7 +112,7 @@ impl<'a> Gen<'a> {
             1 => (XHTML_NS.to_string(), html_name(self.rng)),
             2 => (MATHML_NS.to_string(), self.rng.pick(MATH_NAMES).to_string()),
             3 => (SVG_NS.to_string(), self.rng.pick(SVG_NAMES).to_string()),
-            _ => ("urn:A".to_string(), self.rng.pick(&["island", "x", "item"]).to_string()),
+            _ => (self.foreign_ns.to_string(), self.rng.pick(&["island", "x", "item"]).to_string()),
         };
         let mut e = ANode::elem(QName::new(&ns, &local));
         // declarations: none / default / prefixed for the element's namespace; sometimes an alias on top
@@ -135,10 +137,20 @@ impl<'a> Gen<'a> {
             e.decls.push((String::new(), String::new()));
         }
         if self.rng.chance(1, 8) && scope.lookup("p").is_none() {
-            e.decls.push(("p".to_string(), "urn:A".to_string()));
+            e.decls.push(("p".to_string(), self.foreign_ns.to_string()));
+        }
+        // a default declaration for ANOTHER of the HTML-family namespaces on an element that is written with a
+        // prefix: it is of no use to the element itself, only to what is below it
+        if !ns.is_empty() && self.rng.chance(1, 8) && !e.decls.iter().any(|(p, _)| p.is_empty()) {
+            let own_prefixed = e.decls.iter().any(|(p, u)| !p.is_empty() && *u == ns) || !scope.prefixes_for(&ns, false).is_empty();
+            if own_prefixed {
+                let others: Vec<&str> = [SVG_NS, MATHML_NS, XHTML_NS].into_iter().filter(|u| *u != ns).collect();
+                e.decls.push((String::new(), self.rng.pick(&others).to_string()));
+            }
         }
         let pushed = scope.push_all(&e.decls);
-        let fp = scope.prefixes_for("urn:A", false).first().map(|_| "urn:A");
+        let fns = self.foreign_ns;
+        let fp = scope.prefixes_for(fns, false).first().map(|_| fns);
         self.attrs(&mut e, fp);
         let lower = local.to_ascii_lowercase();
         let is_raw = ns.is_empty() && (lower == "script" || lower == "style");
@@ -707,7 +719,8 @@ impl Monitor for C19 {
             }
             _ => {
                 let xhtml_share = rng.chance(3, 20);
-                let mut g = Gen { rng, budget: 0, xhtml_share };
+                let foreign_ns = if rng.chance(1, 6) { gen::NS_HOSTILE } else { "urn:A" };
+                let mut g = Gen { rng, budget: 0, xhtml_share, foreign_ns };
                 g.budget = if crate::engine::legs_mode() { 5 } else { *g.rng.pick(&[3, 8, 16, 30]) };
                 let mut scope = gen::Scope::new();
                 let root = g.element(1, &mut scope);
